@@ -155,7 +155,10 @@ fn interrupted(lines: &[String], k: usize, inspect: u8, probe: &str) -> Result<O
         s.rt.interrupt();
         s.drain();
         all.extend(remove_break(&s.take()));
-        if inspect > 0 {
+        if inspect == 3 {
+            // the slicing changes at the interruption: CONT and what follows run in long calls
+            s.quantum = 5000;
+        } else if inspect > 0 {
             // 1: a direct statement that runs; 2: a mistyped one that is refused with a syntax error
             s.quantum = 5000;
             s.enter(if inspect == 1 { "PRINT I" } else { "PRINT )" });
@@ -385,12 +388,12 @@ fn judge_prog(p: &Prog, d: Depth, ctx: &mut Ctx) {
     let has_tron = text.contains("TRON");
     let kmax = if d.k_all { 160 } else { 40 };
     for k in 1..=kmax {
-        for mode in [0u8, 1, 2] {
+        for mode in [0u8, 1, 2, 3] {
             if mode == 2 && k > 16 {
                 continue;
             }
-            let inspect = mode > 0;
-            if !ctx.begin(&format!("{} ; interrupt after {} single-instruction calls{}, CONT", text, k, ["", ", PRINT I", ", a mistyped direct line"][mode as usize])) {
+            let inspect = mode == 1 || mode == 2;
+            if !ctx.begin(&format!("{} ; interrupt after {} single-instruction calls{}, CONT", text, k, ["", ", PRINT I", ", a mistyped direct line", ", the rest in 5000-instruction calls"][mode as usize])) {
                 continue;
             }
             if has_tron {
@@ -675,7 +678,7 @@ impl Check for C13 {
     fn meta(&self, tier: Tier) -> Meta {
         Meta {
             bound: match tier {
-                Tier::Quick => "16 curated programs (INPUT, INKEY$, LIST inside the program, READ/DATA in a loop, GOSUB out of a loop, ...) and all N=1 programs (full alphabet): interrupt after every k-th single-instruction call (k<=160, also at a pending prompt) with and without a direct PRINT before CONT, STOP and END before every statement, uniform quanta 2..48 and 5000, all two-phase schedules over {1,2,3,7,5000} with switch points 1..12, all mixed schedules over {1,2,3} of length <=3, macro-step confluence on the state digest for quanta {1,2,3,5,8,5000}; N=2 medium, N=3 core and N=2 mixed-feature (DATA/READ/RESTORE, DEF FN, arrays, strings, SWAP, CLEAR, ERASE, INPUT) programs with k<=40 and mixed schedules of length <=2".into(),
+                Tier::Quick => "16 curated programs (INPUT, INKEY$, LIST inside the program, READ/DATA in a loop, GOSUB out of a loop, ...) and all N=1 programs (full alphabet): interrupt after every k-th single-instruction call (k<=160, also at a pending prompt) with and without a direct PRINT before CONT, and with CONT and the rest of the run in 5000-instruction calls, STOP and END before every statement, uniform quanta 2..48 and 5000, all two-phase schedules over {1,2,3,7,5000} with switch points 1..12, all mixed schedules over {1,2,3} of length <=3, macro-step confluence on the state digest for quanta {1,2,3,5,8,5000}; N=2 medium, N=3 core and N=2 mixed-feature (DATA/READ/RESTORE, DEF FN, arrays, strings, SWAP, CLEAR, ERASE, INPUT) programs with k<=40 and mixed schedules of length <=2".into(),
                 Tier::Thorough => "as quick with mixed schedules up to length 6 on curated and N=1, N=2 full with length 3 and macro-steps, N=3 medium and N=4 core light, N=2 mixed-feature with length 3 and macro-steps, N=3 mixed-feature light".into(),
             },
             rule: "a case is (program, interruption point | STOP/END placement | quantum schedule | macro-step); distinct_nontrivial = distinct (perturbation, baseline transcript) pairs; cases beyond the end of a program's run are not counted".into(),
